@@ -309,7 +309,10 @@ def float_histories(seed, n_hist):
     Bd = C_ @ C_.T * 0.3
     md, kd, bd = np.array([2.0, 3.0, 1.5, 4.0]), np.array([0.0, 80.0, 300.0, 5000.0]), np.array([0.0, 1.0, 2.5, 8.0])
     bcd = np.diag(bd).copy(); bcd[1, 2], bcd[2, 1], bcd[0, 1] = 0.3, -0.2, 0.1
+    Gq = rng.randn(n - 2, n)
+    Krb = Gq.T @ Gq * 40                                   # stiffness with two rigid-body modes; damping proportional to it, full mass: coupled path with rb modes
     mk = [("SolveUnc coupled (complex modes)", lambda o: ode.SolveUnc(M, Bd, K, 0.01, order=o)),
+          ("SolveUnc coupled with two rigid-body modes", lambda o: ode.SolveUnc(M, 0.02 * Krb, Krb, 0.01, order=o)),
           ("SolveUnc coupled m=None", lambda o: ode.SolveUnc(None, Bd, K, 0.01, order=o)),
           ("SolveUnc diag rb+rf", lambda o: ode.SolveUnc(md, bd, kd, 0.01, rf=[3], order=o)),
           ("SolveCDF", lambda o: ode.SolveCDF(md, bcd, kd, 0.01, rf=[3], order=o)),
@@ -324,6 +327,10 @@ def float_histories(seed, n_hist):
                     d0[3] = v0[3] = 0.0
                 # how the initial conditions are given: d0 and v0, static initial conditions, static + an initial velocity, v0 only, nothing
                 ickw = [dict(d0=d0, v0=v0), dict(static_ic=True), dict(static_ic=True, v0=v0), dict(v0=v0), {}][(it + order) % 5]
+                rbc = "rigid-body modes" in name
+                if rbc and "static_ic" in ickw:
+                    ickw = dict(v0=v0)            # a static initial state does not exist for a coupled system with a singular stiffness
+                tolh = 1e-6 if rbc else 1e-8      # the zero eigenvalues of the coupled rigid-body system are defective: generator and batch agree to ~cond * eps only
                 gen, d, v = ts.generator(nt, F0, **ickw)
                 Force = np.zeros((n, nt)); Force[:, 0] = F0
                 cur = 0
@@ -337,7 +344,7 @@ def float_histories(seed, n_hist):
                     ev += 1
                     ref = f(order).tsolve(Force[:, :cur + 1], **ickw)
                     sc = max(1.0, abs(ref.d).max(), abs(ref.v).max())
-                    if abs(d[:, :cur + 1] - ref.d).max() > 1e-8 * sc or abs(v[:, :cur + 1] - ref.v).max() > 1e-8 * sc:
+                    if abs(d[:, :cur + 1] - ref.d).max() > tolh * sc or abs(v[:, :cur + 1] - ref.v).max() > tolh * sc:
                         return ev, dict(solver=name, order=order, what="generator arrays differ from batch tsolve after a send history (%s, order %d)" % (name, order),
                                         max_diff_d=float(abs(d[:, :cur + 1] - ref.d).max()), cur=cur, initial_conditions=sorted(ickw))
                 for i in range(cur + 1, nt):
@@ -347,7 +354,7 @@ def float_histories(seed, n_hist):
                 ev += 1
                 for q in "dva":
                     sc = max(1.0, abs(getattr(ref, q)).max())
-                    if abs(getattr(sol, q) - getattr(ref, q)).max() > 1e-8 * sc:
+                    if abs(getattr(sol, q) - getattr(ref, q)).max() > tolh * sc:
                         return ev, dict(solver=name, order=order, what="finalize() differs from batch tsolve in %s (%s, order %d)" % (q, name, order))
     return ev, None
 
